@@ -16,4 +16,9 @@ def run(ctx):
     ctx.add_bounded("tables and trees of MAP / archive on multi-chain traces (shared with C11)", "see C11", r2["cases"], r2["cases"], not [p for p in r2["problems"] if "table" in p or "archive" in p])
     for p in [p for p in r2["problems"] if "table" in p or "archive" in p][:5]:
         ctx.fail("C12.bounded.tables[%s]" % p[:90], p, {"problem": p}, True)
-    ctx.samples.append({"bounded_cases": r["cases"] + r2["cases"]})
+    r3 = BC.run_c16(ctx.tier, ctx.seed)
+    raised = [p for p in r3["problems"] if "raised" in p]
+    ctx.add_bounded("the consensus command completes on every family of trees (shared with C16; includes supports equal to the threshold)", "see C16", r3["cases"], r3["cases"], not raised)
+    for p in raised[:4]:
+        ctx.fail("C12.bounded.completes[%s]" % p[:90], p, {"problem": p}, True)
+    ctx.samples.append({"bounded_cases": r["cases"] + r2["cases"] + r3["cases"]})
